@@ -1,6 +1,6 @@
 (** C03 - a stop answer ends the work; the fail-fast result is the first keep-going report. *)
 From Deserr Require Import Base Pointer Kinds Value Prog Utf8 Scalars Types Deser Monitors.
-From Deserr.proofs Require Import ProgProofs LeavesProofs C14Proofs.
+From Deserr.proofs Require Import ProgProofs LeavesProofs C14Proofs StopProofs DeserStops.
 
 (** Causality, for every target type / payload / location / starting state and any two answer
     scripts that agree on the answers to calls 0..k-1 (pointwise: no extensionality): either the
@@ -26,6 +26,32 @@ Theorem c03_failfast_first : forall t a v l sc1 sc2 s,
   = first_created (ext_of sc2 (deser t a v l) s) (N.of_nat (List.length s)).
 Proof. exact deser_first_created. Qed.
 
+(** A stop answer ends the work. For every script whose answers are all Break from call k on
+    (a fail-fast error type is k = 0; an error type that gives up after some reports is any k):
+    let j be the first call at or after k that creates an error value (a report, a user error
+    handed to merge, or a hand-over merge). Then every call after j is a hand-over
+    [merge(_, other, _)] whose [other] is the result of the call just before it - no value is
+    examined, no report is made, no user function runs any more - and [deserialize] returns Err
+    of the result of the last call. ([c03_tail_ok] is the very predicate the check evaluates on
+    the implementation's traces.) *)
+Theorem c03_stop_ends_the_work : forall t v script k,
+  (forall j, (k <= j)%N -> script j = false) ->
+  c03_tail_ok k (fst (run script (deserialize t v) [])) (snd (run script (deserialize t v) [])) = true.
+Proof. exact deserialize_stop_ends_the_work. Qed.
+
+(* non-vacuity: the stop happens inside a Vec inside a struct; two hand-overs follow *)
+Example c03_example :
+  let u8 := TInt {| i_signed := false; i_width := W8; i_nonzero := false |} in
+  let t := TStruct (mkCS [mkCF "a" "a" (TVec u8) None FFNone FDMissing None None;
+                          mkCF "b" "b" TBool None FFNone FDMissing None None] [] DenyDefault) None in
+  let v := VMap [("a", VSeq [VInt 1; VInt 1000; VStr "x"]); ("b", VNull)]%string in
+  let r := run (fun i => (i <? 0)%N) (deserialize t v) [] in
+  List.length (snd r) = 3%nat /\ fst r = RErr 2 /\ c03_tail_ok 0 (fst r) (snd r) = true.
+Proof. vm_compute. repeat split. Qed.
+
+Check c03_stop_ends_the_work : forall t v script k,
+  (forall j, (k <= j)%N -> script j = false) ->
+  c03_tail_ok k (fst (run script (deserialize t v) [])) (snd (run script (deserialize t v) [])) = true.
 Check c03_failfast_first : forall t a v l sc1 sc2 s,
   first_created (ext_of sc1 (deser t a v l) s) (N.of_nat (List.length s))
   = first_created (ext_of sc2 (deser t a v l) s) (N.of_nat (List.length s)).
@@ -39,3 +65,4 @@ Check c03_causal : forall t a v l (sc1 sc2 : N -> bool) (k : N) (s : list call),
    /\ firstn (S (N.to_nat k)) (snd (run sc1 p s)) = firstn (S (N.to_nat k)) (snd (run sc2 p s))).
 Print Assumptions c03_causal.
 Print Assumptions c03_failfast_first.
+Print Assumptions c03_stop_ends_the_work.
